@@ -17,7 +17,8 @@ Transition rules (one line each):
   `absent` stay;
 * `renew k`    (`ResetRoutine`): a key in the set gets new data and is `present`
   (the code forgets a pending delayed removal here: the old record's timer no longer matches);
-* `advance`: every `leaving` key becomes `absent`.
+* `advance` ends the epoch; `expire k` (the callback of the removal timer of `k`, any time after the
+  `advance` that follows its arming, unless the key was requested again): `leaving` becomes `absent`.
 
 The only information the rules need from the routines is the oracle `failed k` ("the routine of `k`
 has exited with an error and was not started again").
@@ -77,11 +78,17 @@ def renCtor (a : ASt) (k : Nat) : Nat := if a.inSet k then a.nctor k + 1 else a.
 def renew (a : ASt) (k : Nat) : ASt :=
   { a with st := upd a.st k (renSt a k), nctor := upd a.nctor k (renCtor a k) }
 
-def specAdvance (a : ASt) : ASt :=
-  { a with epoch := a.epoch + 1
-           st := fun k => match a.st k with
-             | .leaving _ _ => .absent
-             | x => x }
+/-- the epoch ends: the removal timers armed in it fire; each callback deletes its key when it gets
+the mutex (`expire`) -/
+def specAdvance (a : ASt) : ASt := { a with epoch := a.epoch + 1 }
+
+/-- state of `k` after the callback of its removal timer ran -/
+def expSt (a : ASt) (k : Nat) : KSt :=
+  match a.st k with
+  | .leaving d e => if e < a.epoch then .absent else .leaving d e
+  | x => x
+
+def expire (a : ASt) (k : Nat) : ASt := { a with st := upd a.st k (expSt a k) }
 
 /-- number of live references to `k` -/
 def liveCount (a : ASt) (k : Nat) : Nat := a.live.countP (· == some k)
@@ -131,12 +138,12 @@ def SpecOut (a a' : ASt) : Op → Res → Prop
 
 /-! ## abstraction function -/
 
-def absKey (epoch : Nat) : Option Rec → KSt
+def absKey : Option Rec → KSt
   | none => .absent
   | some r =>
     match r.deferRemove with
     | none => .present r.data
-    | some e => if e < epoch then .absent else .leaving r.data e
+    | some e => .leaving r.data e
 
 def absRef (x : RefSt) : Option Nat := if x.listed then some x.key else none
 
@@ -144,7 +151,7 @@ def abs (s : St) : ASt where
   delay := delayOn s
   hasCtx := s.ctx.isSome
   epoch := s.epoch
-  st := fun k => absKey s.epoch (s.key k)
+  st := fun k => absKey (s.key k)
   nctor := s.ctors
   live := s.refs.map absRef
 
@@ -155,13 +162,14 @@ def failedOf (s : St) (k : Nat) : Bool :=
   | none => false
 
 /-- the abstract image of an event: API calls act at their critical section, `advance` ends the
-epoch, everything else is invisible -/
+epoch, the removal timer's callback expires its key, everything else is invisible -/
 def specEv (a : ASt) (s : St) : Ev → ASt
-  | .exec =>
-    match s.call with
-    | .invoked _ op => specStep a (failedOf s) op
-    | _ => a
+  | .exec id =>
+    match pendingOp s.calls id with
+    | some op => specStep a (failedOf s) op
+    | none => a
   | .advance => specAdvance a
+  | .timerRemove k => expire a k
   | .config c => { a with delay := c.delay }
   | _ => a
 
